@@ -42,6 +42,7 @@ type csEnv struct {
 	dt     int64 // seconds between the last block and the one executed next
 	nextDt int64 // the same for the block after (used by the end-of-block projection)
 	last   chain.M
+	skew   bool   // random driver: pools of very different depth
 	cfg    string // effective driver configuration (logged so that replays are self-contained)
 }
 
